@@ -83,6 +83,7 @@ Section NP.
         destruct ((tok =? 92) || (tok =? 39)).
         * destruct value as [|[] ?]; try discriminate; apply IH2, Hr.
         * destruct (tok =? 34); [|apply IH2, Hr].
+          destruct (only_at value && Nat.leb (length (args e)) 1); [apply IH2, Hr|].
           match goal with |- Q (match expand users f ?e ?w ?m with _ => _ end) => pose proof (IH1 e w m Hp) as H1; destruct (expand users f e w m) as [[e1 w1]|[e1 x1]| |] end;
             cbn [Q] in *; try exact I; try contradiction. apply IH2, Hr.
       + (* parameter *)
